@@ -38,6 +38,22 @@ theorem tee_full_input (chunks : List Bytes) :
     (teeRun chunks).a = teeOutput chunks.flatten ∧ (teeRun chunks).b = teeOutput chunks.flatten := by
   simp [teeRun, teeRun_aux, Tee.init, teeOutput]
 
+/-- **M3′ (short-writing targets).** The same for targets that accept only a prefix of what they are offered or fail with
+`Interrupted`, in any pattern (`sa`, `sb`: one entry per `write` call the target receives): because `TeeWrite::write` hands
+the chunk to each target with `write_all`, both targets still end up with exactly the input, once. -/
+theorem tee_full_input_short_writes (sa sb : List Nat) (chunks : List Bytes) :
+    (teeRunS sa sb chunks).a = teeOutput chunks.flatten ∧ (teeRunS sa sb chunks).b = teeOutput chunks.flatten := by
+  simpa [teeRunS, teeOutput] using teeRunS_aux chunks ⟨[], [], sa, sb⟩
+
+/-- **M2′ (short-writing inner writer).** A mapped writer whose inner writer short-writes or is interrupted in any pattern
+delivers the same bytes as over a plain buffer — hence `output_spec` and `chunk_independent` hold for it unchanged. -/
+theorem mapped_output_short_writes (m : Nat) (f : Bytes → Bytes) (script : List Nat) (chunks : List Bytes) :
+    runS m f script chunks = mappedOutput m f chunks.flatten := by
+  rw [← output_spec]
+  have h := foldl_writeS_sim m f chunks ⟨[], [], script⟩
+  simp only [runS, run, finishS, finish, St.init, h.1, h.2, writeAll_content]
+  rfl
+
 /-- D5, the defect the unfixed code has: applying `f` to an *empty* remainder. `line_mapped(w, add_prefix("> "))` fed
 `"a\nb\n"` yields `"> a\n> b\n> "`; the property (and the fixed model) give `"> a\n> b\n"`. -/
 theorem unfixed_drop_violates_spec :
@@ -48,6 +64,8 @@ theorem unfixed_drop_violates_spec :
 example : run 10 (addPrefix [62]) [[97], [], [10, 98, 10, 10], [99]] = [62, 97, 10, 62, 98, 10, 62, 10, 62, 99] := by decide
 example : mappedOutput 10 (addPrefix [62]) [97, 10, 98, 10] = [62, 97, 10, 62, 98, 10] := by decide
 example : segments 10 [97, 10, 10, 98] = ([[97, 10], [10]], [98]) := by decide
+/-- a second target taking one byte per call, a first one interrupted on every other call -/
+example : teeRunS [0, 3, 0, 3] [1, 1, 1] [[1, 2, 3], [4]] = ⟨[1, 2, 3, 4], [1, 2, 3, 4], [], []⟩ := by decide
 
 /-! ## B. two pipes, two copier threads -/
 
